@@ -3,24 +3,25 @@
 # checks: compiles; existing suite shows only the two baseline failures; demo fails with the change and passes without.
 set -u
 src=$1; id=$2
+RACEFLAG=${RACEFLAG:-}
 export GOFLAGS=-mod=mod GOPROXY=off GOSUMDB=off GOTOOLCHAIN=local
 wt=/tmp/confirm_$id
 rm -rf $wt; git -C /repo worktree add -q $wt HEAD || exit 2
 cd $wt
 mkdir -p test/seeddemo && cp $src/demo_test.go test/seeddemo/demo_test.go
-go test -count=1 ./test/seeddemo/ > /tmp/confirm_$id.clean.log 2>&1; clean_rc=$?
+go test $RACEFLAG -count=1 ./test/seeddemo/ > /tmp/confirm_$id.clean.log 2>&1; clean_rc=$?
 git apply $src/patch.diff || { echo "$id: patch does not apply"; cd /; git -C /repo worktree remove --force $wt; exit 2; }
 go build ./builder/... ./context/... ./engine/... ./internal/... > /tmp/confirm_$id.build.log 2>&1; build_rc=$?
-go test -count=1 ./test/seeddemo/ > /tmp/confirm_$id.mut.log 2>&1; mut_rc=$?
+go test $RACEFLAG -count=1 ./test/seeddemo/ > /tmp/confirm_$id.mut.log 2>&1; mut_rc=$?
 rm -rf test/seeddemo
-fails=$(go test -vet=off -count=1 ./... 2>&1 | grep -E '^--- FAIL' | sort | tr '\n' ' ')
+fails=$(go test -vet=off -count=1 ./... 2>&1 | grep -E '^--- FAIL' | sed -E 's/ \([0-9.]+s\)//' | sort | tr '\n' ' ')
 cd /; git -C /repo worktree remove --force $wt
 ok=1
 [ $clean_rc -eq 0 ] || ok=0
 [ $build_rc -eq 0 ] || ok=0
 [ $mut_rc -ne 0 ] || ok=0
 case "$fails" in
-  "--- FAIL: Test_lexer (0.00s) --- FAIL: Test_pligin (0.00s) ") ;;
+  "--- FAIL: Test_lexer --- FAIL: Test_pligin ") ;;
   *) ok=0 ;;
 esac
 echo "$id: clean_demo_rc=$clean_rc build_rc=$build_rc mutated_demo_rc=$mut_rc suite_failures=[$fails] confirmed=$ok"
